@@ -123,3 +123,14 @@ Print Assumptions C15_constructors_in_source.
 Theorem C15_constructor_parameters_reach_the_parent : forallb (fun r => how_ok (snd r)) ctor_special = true.
 Proof. exact ctor_nothing_dropped_or_replaced. Qed.
 Print Assumptions C15_constructor_parameters_reach_the_parent.
+
+(* the seed reaches every decomposition step a model runs inside itself *)
+Theorem C15_inner_steps_are_seeded :
+  Fwd_tie.obj_kw "ExtendedEOF" "__init__" "EOF" "random_state" = ["self._params['random_state']"%string] /\
+  Fwd_tie.obj_kw "ExtendedEOF" "_fit_algorithm" "EOF" "random_state" = ["self._params['random_state']"%string] /\
+  Fwd_tie.obj_kw "OPA" "_fit_algorithm" "EOF" "random_state" = ["self._params['random_state']"%string] /\
+  Fwd_tie.obj_kw "POP" "__init__" "PCA" "random_state" = ["random_state"%string] /\
+  Fwd_tie.obj_kw "BaseModelCrossSet" "__init__" "PCA" "random_state" = ["random_state"%string; "random_state"%string] /\
+  Fwd_tie.obj_kw "PCA" "fit" "SVD" "random_state" = ["self.random_state"%string].
+Proof. exact Fwd_tie.inner_steps_are_seeded. Qed.
+Print Assumptions C15_inner_steps_are_seeded.
